@@ -290,9 +290,15 @@ class Integer(Decimal):
 
     @staticmethod
     def validate_native(cls, value):
-        return (    Decimal.validate_native(cls, value)
-                and (value is None or int(value) == value)
-            )
+        try:
+            return (    Decimal.validate_native(cls, value)
+                    and (value is None or int(value) == value)
+                )
+
+        except (TypeError, ValueError, OverflowError):
+            # not convertible to an integer at all (a list from a dict
+            # document, an infinite float, ...)
+            return False
 
 
 class UnsignedInteger(Integer):
